@@ -14,8 +14,7 @@ STEP_LIMIT = 3_000_000
 BOUNDS = {
     'quick': '12 programs of 1-4 rules (facts, conjunctions, disjunctions, lists, quoted atoms containing `, . #`, escaped commas, float literals and infix `= < + *` in bodies); '
              'each rendered with a symbolic layout character (space or line feed, decided by the solver) after every documented continuation character `-` `,` `;` `=` outside '
-             'brackets (up to 8 per program: all 2^k layouts in one exploration), in 3 decorations: plain, with `#` / `%` / `//` comment lines and trailing comments, with blank and '
-             'indented lines; oracle: load returns an error, or format_kb and every stored rule equal those of parse_rule applied to each rule on one line',
+             'brackets (up to 8 per program: all 2^k layouts in one exploration), in 3 decorations: plain, with `#` / `%` / `//` comment lines and trailing comments, with blank lines and continuation lines indented by a space or a tab (also a solver variable; up to 4 break points); oracle: load returns an error, or format_kb and every stored rule equal those of parse_rule applied to each rule on one line',
     'thorough': '30 programs, layout characters also after commas inside parentheses and brackets (comments only where the running depth is 0)',
 }
 OUTSIDE = 'comments inside parentheses or brackets; line breaks at other places than after a continuation character; files that do not exist'
@@ -86,12 +85,17 @@ def render(m, prog, deco, inner):
         while i < len(rule):
             ch = rule[i]
             chars.append(ch)
-            if i in pts and nb < 8:
+            if i in pts and nb < (4 if deco == 'blank' else 8):
                 c = m.fresh('nl%d' % nb, 'char'); nb += 1
                 if isinstance(c, Sym):
                     m.assume(Sym(z3.Or(c.e == 32, c.e == 10), 'bool'))
                 chars.append(c)
-                if deco == 'blank': chars += [' ', ' ']
+                if deco == 'blank':
+                    # indentation of the continuation line: a space or a tab, decided by the solver
+                    ind = m.fresh('ind%d' % nb, 'char')
+                    if isinstance(ind, Sym):
+                        m.assume(Sym(z3.Or(ind.e == 32, ind.e == 9), 'bool'))
+                    chars += [ind, ' ']
                 # the space that follows in the source text stays (indentation)
             i += 1
         if deco == 'comments' and ri % 2 == 0:
